@@ -21,7 +21,7 @@ ASSUMPTIONS = [
     "glue_lock is substituted by a baton-aware lock with the same mutual-exclusion semantics (a real Lock would deadlock the cooperative scheduler)",
 ]
 REAL_VS_STUB = {"real": ["stackscope._glue.add_glue_as_needed / builtin_glue / builtin_glue_pending", "the real sys.modules", "real threads"], "stub": ["fake modules _vsim_*", "glue functions that count and yield", "baton scheduler", "SimLock in place of glue_lock"]}
-RARE_PROBES = ["module_appeared_during_glue_pass", "late_module_glue_ran_in_same_extraction", "remove_then_add_same_len", "replace_in_place", "raising_glue_ran", "both_kinds_present", "late_builtin_registration", "lock_contended", "threads"]
+RARE_PROBES = ["module_appeared_during_glue_pass", "remove_then_add_same_len", "replace_in_place", "raising_glue_ran", "both_kinds_present", "late_builtin_registration", "lock_contended", "threads"]
 LEGS = [
     {"name": "hist312", "python": "3.12", "quick": 20000, "thorough": 400000, "quick_s": 40, "thorough_s": 400, "run_timeout": 90, "params": {"threads": False}},
     {"name": "thr312", "python": "3.12", "quick": 6000, "thorough": 100000, "quick_s": 40, "thorough_s": 400, "run_timeout": 90, "params": {"threads": True}},
